@@ -272,6 +272,8 @@ def tasks(tier):
         for first in range(len(menu)):
             ts.append(("seq", n, axes, first, DEPTH[tier]))
         ts.append(("double", n, axes))
+    for axes in ("all", "none"):
+        ts.append(("bigseq", 30, axes))
     for fe in ("pandas:range", "pandas:shift", "numpy:dict", "xarray:coord", "netcdf"):
         for z, ll in ((True, True), (False, False)):
             ts.append(("stream", fe, z, ll))
@@ -294,6 +296,23 @@ def run_task(task, acc):
                     if seq == sorted(seq, key=repr):
                         acc.bump("canonical_states(event sets)")
                     yield dict(n=n, axes=axes, events=seq)
+        run_cases(acc, gen(), check_case)
+    elif kind == "bigseq":
+        _, n, axes = task
+
+        def gen():
+            cuts = [(0, 10), (10, 25), (25, 30), (0, 0), (0, 30)]
+            evs = [dict(w=list(w), keys=[list(k)]) for w in cuts for k in KEYS]
+            for seq in itertools.permutations([e for e in evs if e["w"] in ([0, 10], [10, 25], [25, 30]) and e["keys"][0][0] == "s1"], 6):
+                pass
+            part = [dict(w=list(w), keys=[list(KEYS[0])]) for w in cuts[:3]]
+            other = [dict(w=[0, 30], keys=[list(KEYS[2])]), dict(w=[5, 20], keys=[list(KEYS[1])]), dict(w=[0, 0], keys=[list(KEYS[0])])]
+            for p_ in itertools.permutations(part):
+                for o in other:
+                    for pos in range(4):
+                        seq = list(p_)
+                        seq.insert(pos, o)
+                        yield dict(n=n, axes=axes, events=seq)
         run_cases(acc, gen(), check_case)
     elif kind == "double":
         _, n, axes = task
